@@ -1,6 +1,7 @@
 package main
 
 import (
+	"runtime/pprof"
 	"encoding/json"
 	"flag"
 	"fmt"
@@ -34,6 +35,8 @@ type Obligation struct {
 	Solver     string   `json:"solver"`
 	NoMergeIfs bool     `json:"no_merge_ifs"`
 	NoMergeCalls bool   `json:"no_merge_calls"`
+	EagerIf    bool     `json:"eager_if"`
+	Replace    map[string]string `json:"replace"`
 	MaxSteps   int      `json:"max_steps"`
 	Bound      string   `json:"bound"`
 	MaxViol    int      `json:"max_viol"`
@@ -122,6 +125,9 @@ func verifReach(tag string)
 func verifNote(s string)
 func verifSplit(v uint64, lo, hi uint64) uint64
 func verifIsSymbolic(v uint64) bool
+func verifAnd(a, b bool) bool
+func verifOr(a, b bool) bool
+func verifIte(c bool, a, b uint64) uint64
 `
 
 const primsReplay = `package %s
@@ -166,6 +172,14 @@ func verifReach(tag string)                     {}
 func verifNote(s string)                        {}
 func verifSplit(v uint64, lo, hi uint64) uint64 { return v }
 func verifIsSymbolic(v uint64) bool             { return false }
+func verifAnd(a, b bool) bool                   { return a && b }
+func verifOr(a, b bool) bool                    { return a || b }
+func verifIte(c bool, a, b uint64) uint64 {
+	if c {
+		return a
+	}
+	return b
+}
 `
 
 func buildOverlay(pkgs []string, replay bool) map[string][]byte {
@@ -372,6 +386,9 @@ func runTask(p *Program, t Task, base Config, wid int) (*Report, SolverStats, []
 	ob := t.ob
 	cfg.MergeCalls = !ob.NoMergeCalls
 	cfg.MergeIfs = !ob.NoMergeIfs
+	cfg.LazyIf = !ob.EagerIf
+	cfg.Replace = ob.Replace
+	cfg.HarnessPkg = modPath + "/" + ob.Pkg
 	cfg.NoMerge = ob.NoMerge
 	if ob.Unwind > 0 {
 		cfg.Unwind = ob.Unwind
@@ -449,7 +466,17 @@ func cmdRun(args []string) int {
 	logsmt := fs.String("logsmt", "", "prefix for smt transcripts")
 	noReplay := fs.Bool("noreplay", false, "skip native replay")
 	evidence := fs.String("evidence", "", "evidence output path (default /verif/evidence/<id>.json)")
+	cpuprof := fs.String("cpuprofile", "", "write cpu profile")
 	fs.Parse(args)
+	if *cpuprof != "" {
+		pf, _ := os.Create(*cpuprof)
+		pprof.StartCPUProfile(pf)
+		go func() {
+			time.Sleep(45 * time.Second)
+			pprof.StopCPUProfile()
+			pf.Close()
+		}()
+	}
 	t0 := time.Now()
 	b, err := os.ReadFile(*specPath)
 	if err != nil {
